@@ -15,11 +15,38 @@ Two further ways an occurrence reaches the guards:
 * delayed delivery - @state_trigger(..., state_hold=N) on the "any change" form: the change is handed to the
   guards by the hold timer N seconds later, with further changes of the variable during the period.
 
+A third: a change of the local wall clock during the run.  A quarter of the runs starts 1-5 minutes before the
+start or the end of daylight saving time of its time zone (the naive local time pyscript works with jumps an hour
+forward or back; elapsed time does not).  Window edges then lie on whole minutes before the change, after it, in
+the skipped hour or further away; the time triggers are crontab lines (cron(m h * * *), the time trigger that is
+documented to follow the local wall clock; also used in 15% of the ordinary runs) with instants on those minutes,
+one of them usually the first one after the change; hold_off values of 20 and 75 s and occurrences of one function
+a few seconds before and after the change, so that a hold-off period contains the change.
+
+Four constructs are generated in half of the runs only (spec["steer"] false), because the unchanged code deviates
+on them (each has its own violation class, see the end of this text):
+* @state_active expressions whose value is a number, not a bool: int(pyscript.g0) alone or below and/or
+  (documented: "If it evaluates to False (or zero), the trigger is ignored");
+* @time_active(hold_off=N) written above @state_active instead of below it;
+* two @event_trigger decorators on one function (documented: "Multiple trigger decorators of the same type can be
+  added to a single function"), the occurrences of both share the guards and the hold-off;
+* @time_trigger(..., "shutdown"): the script is reloaded at the end of the run, which is one more occurrence of
+  the time trigger (wall-clock time of the reload, current guard values, no .old).
+
 Oracle: sim.calendar window/crontab matcher + "any positive and no negative"; hold_off against the last
 accepted occurrence; expected run / no-run per occurrence.  With state_hold the occurrence time is the end of
 the period, the trigger variable and its .old are those of the change that started the period, other entities
 are read at the end of the period (docs: "evaluated after the state_hold period, but with the initial trigger
-variable value"); changes during the period are no occurrences.
+variable value"); changes during the period are no occurrences.  The occurrence time that is matched against the
+windows is the local wall-clock time of the occurrence (for a time trigger: the local time it denotes); hold_off
+counts elapsed seconds between occurrences, whatever the wall clock was set to in between; occurrences are
+ordered by elapsed time.
+
+Violation classes for the constructs above: C07.state_active_falsy_value (ran although the expression is 0),
+C07.hold_off_started_by_rejected_occurrence (an occurrence that passes every guard did not run within N seconds
+of one that @state_active rejected), C07.hold_off_not_shared_between_triggers (ran within N seconds of an
+occurrence accepted through the function's other trigger), C07.shutdown_ran_unguarded (the shutdown occurrence
+ran although a guard rejects it).
 """
 
 from __future__ import annotations
@@ -39,13 +66,23 @@ RULE = (
     "seeded generation of 1-3 guarded functions (event/state/time trigger, 30% of the event/state ones combined "
     "with a @time_trigger, 40% of the state ones with state_hold; 0-4 positive/negated range()/cron() "
     "windows; hold_off; @state_active) and <=40 timed occurrences over ~8 simulated minutes incl. time-trigger "
-    "instants exactly on window end points; distinct = scenario digest; non-trivial = at least one accepted and one "
+    "instants (once(), 15% cron()) exactly on window end points; 25% of the runs cross a daylight-saving change of "
+    "their time zone (forward 2:1 back) 1-5 minutes after the start, with window edges around/inside the skipped "
+    "hour, cron() time triggers before and after the change, hold_off 20/75 s and occurrences of one function "
+    "seconds before and after the change; in half of the runs (steer coin) also: number-valued @state_active "
+    "expressions, @time_active above @state_active, two @event_trigger decorators on one function, a 'shutdown' "
+    "time trigger with a reload at the end; distinct = scenario digest; non-trivial = at least one accepted and one "
     "rejected occurrence"
 )
 ASSUMPTIONS = [
     "event/state occurrences are kept >= 0.3 s away from window edges and hold_off boundaries; time-trigger "
     "occurrences are evaluated at their exact trigger time (documented: trigger_time is the exact datetime)",
-    "weekday windows start and end on the same weekday; sunrise/sunset windows and DST days are not generated here",
+    "weekday windows start and end on the same weekday; sunrise/sunset windows are not generated here",
+    "on a day with a wall-clock change: now-relative windows are not generated (whether 'now + 5 min' means elapsed "
+    "or wall-clock time is not documented); time triggers are cron(m h * * *) lines for wall-clock minutes that "
+    "exist exactly once during the run (none after the change on a day with a repeated hour); event/state "
+    "occurrences stay >= 0.5 s away from the change; 'N seconds after the last accepted one' (hold_off) is elapsed "
+    "time, the occurrence time matched against range()/cron() is the naive local wall-clock time",
     "guard entities change >= 0.4 s away from any occurrence (>= 0.2 s from the end of a state_hold period), so "
     "'current value' is unambiguous",
     "with hold_off, 'last successful' means an occurrence that passed every guard and ran",
@@ -53,7 +90,12 @@ ASSUMPTIONS = [
     "restarted by later changes, the arguments and the trigger variable seen by the guards are those of the first "
     "change); the occurrence time of a held change is the end of the period; a change within 0.1 s of the end of a "
     "period makes the rest of that function's occurrences don't-care",
-    "in a combined trigger the occurrences of both triggers share the function's guards and its hold_off",
+    "in a combined trigger the occurrences of both triggers share the function's guards and its hold_off; the same "
+    "holds for two triggers of the same type on one function",
+    "the order in which @state_active and @time_active are written does not matter: an occurrence that any guard "
+    "rejects is not an accepted one and starts no hold-off period",
+    "a 'shutdown' time trigger is an occurrence like any other: it is gated by the guards evaluated at the time of "
+    "the reload (the documentation does not exempt it; the default subsystem gates it)",
 ]
 TIERS = {
     "quick": {"runs": 1800, "chunk": 60},
@@ -63,8 +105,65 @@ REACH_PROBES = ["occurrence_on_window_end", "hold_off_rejected", "negated_window
                 "wrapping_window", "state_active_rejected", "state_active_old_used", "guard_without_trigger",
                 "direct_call_of_guarded", "cron_window", "several_negated",
                 "combined_trigger", "combined_first_after_window_edge",
-                "state_hold_occurrence", "state_hold_absorbed_change", "state_hold_guard_on_trigger_values"]
+                "state_hold_occurrence", "state_hold_absorbed_change", "state_hold_guard_on_trigger_values",
+                "cron_time_trigger", "occurrence_after_clock_forward", "occurrence_after_clock_back",
+                "time_trigger_first_after_clock_change", "hold_off_rejected_across_clock_change",
+                "hold_off_over_across_clock_change", "window_edge_in_skipped_hour",
+                "state_active_falsy_non_bool", "state_active_rejected_below_hold_off",
+                "hold_off_other_trigger_of_same_type", "shutdown_occurrence",
+                "state_hold_across_clock_change"]
 SHRINK_LISTS = [["ops"], ["spec", "funcs"], ["spec", "funcs", "*", "windows"]]
+
+
+# ------------------------------------------------------------------ @state_active expressions
+# The shared grammar (sim.expr) only builds expressions whose value is a bool.  @state_active takes any expression and
+# is documented to ignore the trigger when it "evaluates to False (or zero)": ["intval", ref] prints as int(ref) and
+# has that integer as its value (int() of a non-number raises = logged, treated as false), also below and/or/not.
+def a_src(node: list) -> str:
+    kind = node[0]
+    if kind == "intval":
+        return f"int({X.ref_src(node[1])})"
+    if kind in ("and", "or"):
+        return f"({a_src(node[1])} {kind} {a_src(node[2])})"
+    if kind == "not":
+        return f"(not {a_src(node[1])})"
+    return X.to_src(node)
+
+
+def a_refs(node: list, out: list | None = None) -> list:
+    if out is None:
+        out = []
+    kind = node[0]
+    if kind == "intval":
+        out.append(node[1])
+    elif kind in ("and", "or"):
+        a_refs(node[1], out)
+        a_refs(node[2], out)
+    elif kind == "not":
+        a_refs(node[1], out)
+    else:
+        X.refs(node, out)
+    return out
+
+
+def a_eval(node: list, env):
+    """The Python value of the expression on the model values; raises X.EvalError where the real one raises."""
+    kind = node[0]
+    if kind == "intval":
+        val = env(node[1][0], node[1][1])
+        try:
+            return int(None if val is None else val[0])
+        except (TypeError, ValueError) as exc:
+            raise X.EvalError(type(exc).__name__) from exc
+    if kind == "and":
+        left = a_eval(node[1], env)
+        return a_eval(node[2], env) if left else left
+    if kind == "or":
+        left = a_eval(node[1], env)
+        return left if left else a_eval(node[2], env)
+    if kind == "not":
+        return not a_eval(node[1], env)
+    return X.evaluate(node, env)
 
 
 def _hms(t: dt.datetime) -> dict:
@@ -114,6 +213,114 @@ def _gen_window(rng: random.Random, base: dt.datetime) -> dict:
     return spec
 
 
+# Days on which the local wall clock is stepped (UTC instant of the change): forward = an hour of wall time is
+# skipped (01:59:59 -> 03:00:00), back = an hour is repeated.  A quarter of the runs is laid across such an instant.
+CLOCK_CHANGES = {
+    "US/Pacific": {"forward": "2024-03-10T10:00:00", "back": "2024-11-03T09:00:00"},
+    "Europe/Berlin": {"forward": "2024-03-31T01:00:00", "back": "2024-10-27T01:00:00"},
+    "Australia/Sydney": {"forward": "2024-10-05T16:00:00", "back": "2024-04-06T16:00:00"},
+}
+
+
+def _change_utc(dst: dict) -> dt.datetime:
+    return dt.datetime.fromisoformat(dst["utc"]).replace(tzinfo=C.UTC)
+
+
+def _minute_marks(zone: C.Zone, base: dt.datetime, dst: dict | None, horizon: float = 460.0) -> list:
+    """[(seconds after base, naive local wall time)] of the whole wall-clock minutes the run passes through."""
+    base_utc = zone.to_utc(base)
+    first = 60 - base.second if base.second else 0
+    out = []
+    off = first
+    while off < horizon:
+        out.append((float(off), zone.to_local(base_utc + dt.timedelta(seconds=off))))
+        off += 60
+    return out
+
+
+def _gen_window_change(rng: random.Random, base: dt.datetime, zone: C.Zone, dst: dict) -> dict:
+    """A window for a run laid across a wall-clock change: edges on (mostly) whole minutes before the change,
+    after it, in the skipped hour, or further away; daily (also wrapping), dated, same-weekday, crontab."""
+    marks = [loc for _off, loc in _minute_marks(zone, base, dst)]
+    change_local = zone.to_local(_change_utc(dst))  # first wall time after the change
+    before = [m for off, m in _minute_marks(zone, base, dst) if off < dst["at"]]
+    after = [m for off, m in _minute_marks(zone, base, dst) if off >= dst["at"]]
+    skipped = []
+    if dst["dir"] == "forward":
+        gap0 = change_local - dt.timedelta(hours=1)
+        skipped = [gap0 + dt.timedelta(minutes=k) for k in (0, 1, 15, 30, 59)]  # wall times that do not exist that day
+    far = [marks[0] - dt.timedelta(minutes=rng.choice([30, 60, 90])), marks[-1] + dt.timedelta(minutes=rng.choice([30, 60, 90]))]
+    pool = marks + skipped + far
+    neg = rng.random() < 0.35
+    roll = rng.random()
+    none = {"k": "none"}
+
+    def edge(t):
+        tm = _hms(t)
+        tm["s"] = rng.choice([0, 0, 0, 30])
+        return tm
+
+    a, b = sorted(rng.sample(pool, 2))
+    if rng.random() < 0.5 and before and after:
+        # one edge on either side of the change (in wall-clock terms)
+        a, b = sorted([rng.choice(before + skipped), rng.choice(after)])
+    if roll < 0.55:
+        if rng.random() < 0.25:
+            a, b = b, a  # wraps midnight
+        spec = {"type": "range", "start": {"date": none, "time": edge(a), "off": 0}, "end": {"date": none, "time": edge(b), "off": 0}}
+    elif roll < 0.67:
+        spec = {"type": "range",
+                "start": {"date": {"k": "full", "y": a.year, "m": a.month, "d": a.day}, "time": edge(a), "off": 0},
+                "end": {"date": {"k": "full", "y": b.year, "m": b.month, "d": b.day}, "time": edge(b), "off": 0}}
+    elif roll < 0.75 and a.date() == b.date():
+        dow = a.isoweekday() % 7 if rng.random() < 0.7 else (a.isoweekday() + 2) % 7
+        spec = {"type": "range", "start": {"date": {"k": "dow", "dow": dow}, "time": edge(a), "off": 0},
+                "end": {"date": {"k": "dow", "dow": dow}, "time": edge(b), "off": 0}}
+    else:
+        form = rng.random()
+        if form < 0.5:
+            mins = sorted({m.minute for m in rng.sample(marks, min(len(marks), rng.randint(1, 4)))})
+            expr = f"{','.join(map(str, mins))} * * * *"
+        elif form < 0.65:
+            expr = "*/2 * * * *"
+        else:
+            # the hour before the change, the hour after it, or (forward) the skipped hour
+            hours = sorted({marks[0].hour, marks[-1].hour, (change_local - dt.timedelta(hours=1)).hour})
+            expr = f"* {rng.choice(hours)} * * *"
+        spec = {"type": "cron", "expr": expr}
+    spec["neg"] = neg
+    return spec
+
+
+def _gen_instants_minutes(rng: random.Random, windows: list, base: dt.datetime, zone: C.Zone, dst: dict | None) -> list:
+    """Time-trigger instants for the crontab form: whole wall-clock minutes of the run - those on window end
+    points and one minute either side, plus a few others.  On a day with a repeated hour only minutes before the
+    change are used (which of the two passes through a repeated minute crontab means is not this property's)."""
+    usable = {}
+    for off, loc in _minute_marks(zone, base, dst):
+        if off <= 5 or (dst and dst["dir"] == "back" and off >= dst["at"]):
+            continue
+        usable[loc] = off
+    insts = set()
+    for win in windows:
+        if win["type"] == "range" and win["start"]["date"]["k"] in ("none", "full", "dow"):
+            for key in ("start", "end"):
+                tm = win[key]["time"]
+                e = dt.datetime(base.year, base.month, base.day, tm["h"], tm["m"], 0)
+                for d in (-1, 0, 1):
+                    t = e + dt.timedelta(minutes=d)
+                    if t in usable and rng.random() < 0.7:
+                        insts.add(t)
+    pool = sorted(usable)
+    for t in rng.sample(pool, min(len(pool), rng.randint(1, 3))):
+        insts.add(t)
+    if dst and dst["dir"] == "forward":
+        first_after = [t for t in pool if usable[t] >= dst["at"]]
+        if first_after and rng.random() < 0.7:
+            insts.add(rng.choice(first_after[:2]))  # the change lies between two occurrences of the trigger
+    return [[t.hour, t.minute, 0] for t in sorted(insts, key=lambda t: usable[t])][:8]
+
+
 # state_hold periods: a change on the x.5 s grid is delivered at x.7 s, 0.2 s clear of every other stimulus and
 # 0.3 s clear of the whole-second window edges
 STATE_HOLDS = [1.2, 2.2, 4.2]
@@ -148,23 +355,46 @@ def gen(rng: random.Random, tier: str) -> dict:
     cfg = gen_cfg(rng)
     cfg["drift"] = 0.0
     cfg["exec_latency_ms"] = [0.0, 0.0]
+    dst = None
+    if rng.random() < 0.25:
+        # the run is laid across a change of the local wall clock (start / end of daylight saving time)
+        cfg["tz"] = rng.choice(sorted(CLOCK_CHANGES))
+        dst = {"dir": rng.choice(["forward", "forward", "back"])}
+        dst["utc"] = CLOCK_CHANGES[cfg["tz"]][dst["dir"]]
+        lead = rng.choice([68, 127, 185, 246, 304]) + rng.choice([0.0, 0.25, 0.5])
+        cfg["epoch_utc"] = (dt.datetime.fromisoformat(dst["utc"]) - dt.timedelta(seconds=lead)).strftime("%Y-%m-%dT%H:%M:%S.%f")
     zone = C.Zone(cfg["tz"])
     local0 = zone.to_local(dt.datetime.fromisoformat(cfg["epoch_utc"]).replace(tzinfo=C.UTC))
     base = local0.replace(microsecond=0) + dt.timedelta(seconds=4)
+    if dst:
+        dst["at"] = (_change_utc(dst) - zone.to_utc(base)).total_seconds()  # whole seconds after ``base``
+    # half of the runs stay clear of three constructs on which the unchanged code is known to deviate (see the
+    # C07.state_active_falsy_value / hold_off_started_by_rejected_occurrence / hold_off_not_shared classes)
+    steer = rng.random() < 0.5
     funcs = []
     for fi in range(rng.choice([1, 2, 2, 3])):
         trig = rng.choice(["event", "event", "state", "time"])
-        windows = [_gen_window(rng, base) for _ in range(rng.choice([0, 1, 1, 2, 3, 4]))]
+        n_win = rng.choice([0, 1, 1, 2, 3, 4])
+        if dst:
+            windows = [_gen_window_change(rng, base, zone, dst) for _ in range(n_win)]
+        else:
+            windows = [_gen_window(rng, base) for _ in range(n_win)]
         func = {"name": f"f{fi}", "trig": trig, "windows": windows,
-                "hold_off": rng.choice([None, None, None, 1.2, 3.3, 0]) if trig != "time" else None,
+                "hold_off": rng.choice([None, None, None, 1.2, 3.3, 0, 20.2]) if trig != "time" else None,
                 "active": None, "time_active": bool(windows) or rng.random() < 0.3,
-                "also_time": False, "state_hold": None}
+                "also_time": False, "state_hold": None, "tt_form": "once"}
+        if dst and trig != "time" and rng.random() < 0.6:
+            # longer hold-offs: one that was started before the wall clock changed is still running after it
+            func["hold_off"] = rng.choice([3.3, 20.2, 20.2, 75.2])
+            func["time_active"] = True
         # combined triggers: the same function also has a @time_trigger, so its event/state occurrences arrive
         # while a time trigger is pending
         if trig != "time" and rng.random() < 0.3:
             func["also_time"] = True
         # delayed delivery: the state occurrence is handed over by the state_hold timer, not by the change itself
-        if trig == "state" and rng.random() < 0.4:
+        if trig == "state" and rng.random() < 0.4 and not (dst and steer):
+            # (a state_hold period that contains a change of the wall clock: in half of the runs only, see
+            # C07.state_hold_across_clock_change)
             func["state_hold"] = rng.choice(STATE_HOLDS)
         if rng.random() < (0.65 if func["state_hold"] else 0.4):
             ents = ["pyscript.g0", "pyscript.g1"]
@@ -177,17 +407,46 @@ def gen(rng: random.Random, tier: str) -> dict:
                     func["active"] = rng.choice([atom, ["and", func["active"], atom], ["or", atom, func["active"]]])
             else:
                 func["active"] = X.gen_expr(rng, ents, [], depth=1, allow_old=False, allow_raise=True)
+            if not steer and rng.random() < 0.3:
+                # an expression whose value is a number, not a bool: int(pyscript.g0) is 0 / 1 / raises
+                ref = [rng.choice(["v", "v", "old"]) if trig == "state" else "v", rng.choice(ents + ([f"pyscript.t{fi}"] if trig == "state" else []))]
+                atom = ["intval", ref]
+                func["active"] = rng.choice([atom, ["and", func["active"], atom], ["or", atom, func["active"]]])
         if not func["time_active"]:
             func["hold_off"] = None
+        if not steer and func["active"] is not None and func["hold_off"] and rng.random() < 0.5:
+            func["time_active_first"] = True  # @time_active written above @state_active
+        if not steer and trig == "event" and rng.random() < 0.3:
+            func["event_types"] = 2  # two @event_trigger decorators on the one function
         if trig == "time" or func["also_time"]:
-            func["instants"] = _gen_instants(rng, windows, base)
+            # the instants are given as once(h:m:s), or (whole minutes) as crontab lines; across a wall-clock change
+            # always the latter: cron() is the time trigger that is documented to follow the local wall clock
+            if dst or rng.random() < 0.15:
+                func["tt_form"] = "cron"
+                func["instants"] = _gen_instants_minutes(rng, windows, base, zone, dst)
+            else:
+                func["instants"] = _gen_instants(rng, windows, base)
+            if not steer and func["instants"] and rng.random() < 0.4:
+                func["shutdown"] = True  # @time_trigger(..., "shutdown"): one more occurrence when the script is reloaded
+            if not func["instants"]:
+                # no usable minute (the wall clock is stepped back a minute after the start): no time trigger
+                func["also_time"] = False
+                if trig == "time":
+                    func["trig"] = "event"
         funcs.append(func)
-    spec = {"funcs": funcs, "no_trigger_func": rng.random() < 0.25, "base": base.isoformat()}
+    spec = {"funcs": funcs, "no_trigger_func": rng.random() < 0.25, "base": base.isoformat(), "dst": dst, "steer": steer}
     # occurrences on a 0.5 s grid offset by .5 from the whole-second edges
     ops = []
     k = 0
     sid = 0
     direct = rng.random() < 0.3
+
+    def occurrence(func, t_off, sid):
+        if func["trig"] == "event":
+            second = func.get("event_types", 1) > 1 and rng.random() < 0.5
+            return {"t": t_off, "kind": "fire", "type": f"ev_{func['name']}" + ("_b" if second else ""), "data": {"id": sid}}
+        return {"t": t_off, "kind": "set", "e": f"pyscript.t{func['name'][1:]}", "s": str(sid)}
+
     while True:
         k += rng.choice([1, 1, 2, 3, 5, 9, 17, 31])
         if k > 470:
@@ -203,13 +462,23 @@ def gen(rng: random.Random, tier: str) -> dict:
             cands = [f for f in funcs if f["trig"] in ("event", "state")]
             if not cands:
                 continue
-            func = rng.choice(cands)
-            if func["trig"] == "event":
-                ops.append({"t": t_off, "kind": "fire", "type": f"ev_{func['name']}", "data": {"id": sid}})
-            else:
-                ops.append({"t": t_off, "kind": "set", "e": f"pyscript.t{func['name'][1:]}", "s": str(sid)})
+            ops.append(occurrence(rng.choice(cands), t_off, sid))
         if len(ops) >= 40:
             break
+    cands = [f for f in funcs if f["trig"] in ("event", "state")]
+    if dst and cands and rng.random() < 0.85:
+        # occurrences of one function shortly before and shortly after the wall clock changes
+        func = rng.choice(cands)
+        offs = {-(rng.choice([1, 2, 4, 7, 12]) + 0.5), rng.choice([0, 1, 3, 6, 10]) + 0.5}
+        for _ in range(rng.choice([0, 1, 2])):
+            offs.add(rng.choice([-1, 1]) * (rng.choice([15, 19, 24, 33, 58]) + 0.5))
+        used = {op["t"] for op in ops}
+        for off in sorted(offs):
+            t_off = dst["at"] + off
+            sid += 1
+            if t_off not in used and 1.0 < t_off < 470.0:
+                ops.append(occurrence(func, t_off, 100 + sid))
+        ops.sort(key=lambda op: op["t"])
     return {"cfg": cfg, "spec": spec, "ops": ops}
 
 
@@ -225,19 +494,28 @@ def render(scn: dict) -> dict:
         fi = func["name"][1:]
         if func["trig"] == "event":
             lines.append(f"@event_trigger('ev_{func['name']}')")
+            if func.get("event_types", 1) > 1:
+                lines.append(f"@event_trigger('ev_{func['name']}_b')")
         elif func["trig"] == "state":
             hold = f", state_hold={func['state_hold']}" if func.get("state_hold") else ""
             lines.append(f"@state_trigger('pyscript.t{fi}'{hold})")
         if _has_time(func):
-            specs = ", ".join(repr(f"once({h}:{m:02d}:{s:02d})") for h, m, s in func.get("instants", []))
+            if func.get("tt_form", "once") == "cron":
+                specs = ", ".join(repr(f"cron({m} {h} * * *)") for h, m, _s in func.get("instants", []))
+            else:
+                specs = ", ".join(repr(f"once({h}:{m:02d}:{s:02d})") for h, m, s in func.get("instants", []))
+            if func.get("shutdown"):
+                specs += ", 'shutdown'"
             lines.append(f"@time_trigger({specs})")
+        guards = []
         if func["active"] is not None:
-            lines.append(f"@state_active({X.to_src(func['active'])!r})")
+            guards.append(f"@state_active({a_src(func['active'])!r})")
         if func["time_active"]:
             args = [repr(window_src(win)) for win in func["windows"]]
             if func["hold_off"] is not None:
                 args.append(f"hold_off={func['hold_off']}")
-            lines.append(f"@time_active({', '.join(args)})")
+            guards.append(f"@time_active({', '.join(args)})")
+        lines += reversed(guards) if func.get("time_active_first") else guards
         lines.append(f"def {func['name']}(**kw):")
         lines.append(f"    sim.mark({func['name']!r}, **kw)")
         lines.append("")
@@ -258,21 +536,66 @@ def render(scn: dict) -> dict:
 def normalize(scn: dict) -> dict | None:
     if not scn["spec"]["funcs"]:
         return None
+    if any(f["trig"] == "time" and not f.get("instants") for f in scn["spec"]["funcs"]):
+        return None  # @time_trigger() without arguments means "at start-up": not what is generated here
     n = len(scn["spec"]["funcs"])
     names = {f["name"] for f in scn["spec"]["funcs"]}
     keep = []
     for op in scn["ops"]:
         if op["kind"] == "direct" and op["fn"] >= n:
             continue
-        if op["kind"] == "fire" and op["type"][3:] not in names:
+        if op["kind"] == "fire" and op["type"][3:].split("_")[0] not in names:
             continue
         keep.append(op)
     scn["ops"] = keep
     return scn
 
 
+def _without_clock_change(scn: dict) -> dict:
+    """The same scenario one day earlier: same wall-clock times at the start, but no change of the wall clock."""
+    cand = copy.deepcopy(scn)
+    day = dt.timedelta(days=1)
+    cand["spec"]["dst"] = None
+    epoch = dt.datetime.fromisoformat(cand["cfg"]["epoch_utc"]) - day
+    cand["cfg"]["epoch_utc"] = epoch.strftime("%Y-%m-%dT%H:%M:%S.%f")
+    cand["spec"]["base"] = (dt.datetime.fromisoformat(cand["spec"]["base"]) - day).isoformat()
+    for func in cand["spec"]["funcs"]:
+        for win in func["windows"]:
+            if win["type"] != "range":
+                continue
+            for key in ("start", "end"):
+                date = win[key]["date"]
+                if date["k"] == "full":
+                    prev = dt.date(date["y"], date["m"], date["d"]) - day
+                    date.update({"y": prev.year, "m": prev.month, "d": prev.day})
+                elif date["k"] == "dow":
+                    date["dow"] = (date["dow"] - 1) % 7
+    return cand
+
+
 def simplify(scn: dict):
+    if scn["spec"].get("dst"):
+        yield _without_clock_change(scn)
     for fi, func in enumerate(scn["spec"]["funcs"]):
+        if func.get("tt_form", "once") == "cron" and not scn["spec"].get("dst"):
+            cand = copy.deepcopy(scn)
+            cand["spec"]["funcs"][fi]["tt_form"] = "once"
+            yield cand
+        for key in ("shutdown", "time_active_first"):
+            if func.get(key):
+                cand = copy.deepcopy(scn)
+                cand["spec"]["funcs"][fi][key] = False
+                yield cand
+        if func.get("event_types", 1) > 1:
+            cand = copy.deepcopy(scn)
+            cand["spec"]["funcs"][fi]["event_types"] = 1
+            cand["ops"] = [dict(op, type=op["type"][:-2]) if op["kind"] == "fire" and op["type"] == f"ev_{func['name']}_b" else op
+                           for op in cand["ops"]]
+            yield cand
+        if func.get("hold_off") and func["hold_off"] > 3.3:
+            cand = copy.deepcopy(scn)
+            cand["spec"]["funcs"][fi]["hold_off"] = 3.3
+            yield cand
         for key, val in (("active", None), ("hold_off", None)):
             if func.get(key) is not None:
                 cand = copy.deepcopy(scn)
@@ -357,6 +680,11 @@ def run(scn: dict, horizon: float = 480.0) -> dict:
         end = vt_base + horizon
         if end > w.loop.vt:
             await w.sleep(end - w.loop.vt)
+        if any(f.get("shutdown") and _has_time(f) for f in spec["funcs"]):
+            # the "shutdown" time trigger occurs when the function is no longer referenced: reload the script
+            await w.drain()
+            info["shutdown_vt"], info["shutdown_wall"] = w.loop.vt, w.clock.local_naive()
+            await w.reload()
         await w.drain()
         info["end"] = w.loop.vt
 
@@ -391,6 +719,13 @@ def oracle(w: World, scn: dict, info: dict, base: dt.datetime):
     violations = []
     startup = w.clock.local_at(info["def_vt"])
     n_acc = n_rej = 0
+    zone = C.Zone(w.cfg["tz"])
+    dst = spec.get("dst")
+    vt_change = info["vt_base"] + dst["at"] if dst else None
+
+    def vt_of_local(t):
+        """Virtual (= real elapsed) time at which the wall clock reads the naive local time ``t``."""
+        return w.clock.vt_of_utc(zone.to_utc(t))
 
     def viol(cls, sig, detail, t=0.0):
         violations.append({"class": cls, "sig": {"subsystem": sub, **sig}, "detail": detail, "t": t})
@@ -412,7 +747,7 @@ def oracle(w: World, scn: dict, info: dict, base: dt.datetime):
                 f"{', state_hold=' + str(hold) if hold else ''}"
                 f"; @time_active({', '.join(window_src(x) for x in func['windows'])}"
                 f"{', hold_off=' + str(func['hold_off']) if func['hold_off'] is not None else ''})"
-                f"{'; @state_active(' + X.to_src(func['active']) + ')' if func['active'] is not None else ''}]")
+                f"{'; @state_active(' + a_src(func['active']) + ')' if func['active'] is not None else ''}]")
         # ---- direct calls are never affected by guards
         want_direct = [r["op"]["id"] for r in info["occ"] if r["op"]["kind"] == "direct" and r["op"]["fn"] == spec["funcs"].index(func)]
         got_direct = [m["raw_kw"]["direct"] for m in direct_marks]
@@ -425,14 +760,14 @@ def oracle(w: World, scn: dict, info: dict, base: dt.datetime):
             op = rec["op"]
             if op["kind"] == "set" and op["e"] in g:
                 g[op["e"]] = op["s"]
-                g_hist.append((rec["wall"], dict(g)))
+                g_hist.append((rec["vt"], dict(g)))
 
-        def guards_at(t, tol):
+        def guards_at(vt, tol):
             gv = dict(gvals)
-            for wall, vals in g_hist:
-                if wall <= t:
+            for vt_set, vals in g_hist:
+                if vt_set <= vt:
                     gv = vals
-                if abs((wall - t).total_seconds()) < tol:
+                if abs(vt_set - vt) < tol:
                     return None  # guard entity changed at the same moment: don't-care
             return gv
 
@@ -446,12 +781,13 @@ def oracle(w: World, scn: dict, info: dict, base: dt.datetime):
             op = rec["op"]
             if op["kind"] == "set" and op["e"] in g:
                 g[op["e"]] = op["s"]
-            elif func["trig"] == "event" and op["kind"] == "fire" and op["type"] == f"ev_{name}":
-                occs.append({"key": ("ctx", rec["ctx"]), "now": rec["wall"], "vt": rec["vt"], "g": dict(g), "exact": False,
-                             "label": f"event id {op['data']['id']} at {rec['wall']}"})
+            elif func["trig"] == "event" and op["kind"] == "fire" and op["type"] in (
+                    [f"ev_{name}", f"ev_{name}_b"] if func.get("event_types", 1) > 1 else [f"ev_{name}"]):
+                occs.append({"key": ("ctx", rec["ctx"]), "now": rec["wall"], "vt": rec["vt"], "rt": rec["vt"], "g": dict(g), "exact": False,
+                             "via": op["type"], "label": f"event {op['type']} id {op['data']['id']} at {rec['wall']}"})
             elif func["trig"] == "state" and op["kind"] == "set" and op["e"] == f"pyscript.t{fi}" and rec["old"] != op["s"]:
                 if not hold:
-                    occs.append({"key": ("val", op["s"]), "now": rec["wall"], "vt": rec["vt"], "g": dict(g), "exact": False,
+                    occs.append({"key": ("val", op["s"]), "now": rec["wall"], "vt": rec["vt"], "rt": rec["vt"], "g": dict(g), "exact": False,
                                  "new": op["s"], "old": rec["old"], "label": f"{op['e']} {rec['old']}->{op['s']} at {rec['wall']}"})
                     continue
                 # state_hold on the "any change" form (documented): the change is delivered ``hold`` seconds later
@@ -464,9 +800,11 @@ def oracle(w: World, scn: dict, info: dict, base: dt.datetime):
                 if pending_until is not None and rec["vt"] < pending_until + 0.1 and unsure_from is None:
                     unsure_from = len(occs)  # a change at the very end of the period: from here on don't-care
                 pending_until = rec["vt"] + hold
-                due = rec["wall"] + dt.timedelta(seconds=hold)
-                occs.append({"key": ("val", op["s"]), "now": due, "vt": pending_until, "g": guards_at(due, 0.15), "exact": False,
+                due = w.clock.local_at(pending_until)  # what the wall clock reads ``hold`` seconds later
+                occs.append({"key": ("val", op["s"]), "now": due, "vt": pending_until, "rt": pending_until,
+                             "g": guards_at(pending_until, 0.15), "exact": False,
                              "new": op["s"], "old": rec["old"], "held": True,
+                             "held_across": dst is not None and rec["vt"] < vt_change < pending_until,
                              "label": f"{op['e']} {rec['old']}->{op['s']} at {rec['wall']} (state_hold over at {due})"})
         if unsure_from is not None:
             for occ in occs[unsure_from:]:
@@ -478,22 +816,37 @@ def oracle(w: World, scn: dict, info: dict, base: dt.datetime):
         if has_time:
             for h, m_, s_ in func.get("instants", []):
                 t = dt.datetime(base.year, base.month, base.day, h, m_, s_)
-                if t <= startup + dt.timedelta(seconds=1):
-                    continue
-                occ = {"key": ("tt", t), "now": t, "vt": None, "g": guards_at(t, 0.3), "exact": True,
+                rt = vt_of_local(t)
+                if rt <= info["def_vt"] + 1.0 or rt > info["end"] - 1.0:
+                    continue  # not during the run
+                if func.get("tt_form", "once") == "cron":
+                    w.probe("cron_time_trigger")
+                occ = {"key": ("tt", t), "now": t, "vt": None, "rt": rt, "g": guards_at(rt, 0.3), "exact": True,
                        "label": f"time trigger at {t}"}
                 if func["trig"] == "state":
                     # no triggering state values: the variable reads as its current value, its .old as None
                     cur = "0"
                     for rec in timeline:
                         if rec["op"]["kind"] == "set" and rec["op"]["e"] == f"pyscript.t{fi}":
-                            if rec["wall"] <= t:
+                            if rec["vt"] <= rt:
                                 cur = rec["op"]["s"]
-                            if abs((rec["wall"] - t).total_seconds()) < 0.3:
+                            if abs(rec["vt"] - rt) < 0.3:
                                 occ["g"] = None
                     occ["new"], occ["old"] = cur, None
                 occs.append(occ)
-        occs.sort(key=lambda o: o["now"])
+        if has_time and func.get("shutdown") and info.get("shutdown_vt") is not None:
+            w.probe("shutdown_occurrence")
+            occ = {"key": ("tt", "shutdown"), "now": info["shutdown_wall"], "vt": info["shutdown_vt"], "rt": info["shutdown_vt"],
+                   "g": guards_at(info["shutdown_vt"], 0.3), "exact": False, "shutdown": True,
+                   "label": f"shutdown time trigger (script reloaded) at {info['shutdown_wall']}"}
+            if func["trig"] == "state":
+                cur = "0"
+                for rec in timeline:
+                    if rec["op"]["kind"] == "set" and rec["op"]["e"] == f"pyscript.t{fi}":
+                        cur = rec["op"]["s"]
+                occ["new"], occ["old"] = cur, None
+            occs.append(occ)
+        occs.sort(key=lambda o: o["rt"])  # real order (the wall clock may be stepped back during the run)
         # ---- observed runs keyed like occurrences
         got = {}
         for m in trig_marks:
@@ -507,7 +860,12 @@ def oracle(w: World, scn: dict, info: dict, base: dt.datetime):
                 key = ("tt", raw.get("trigger_time"))
             got.setdefault(key, []).append(m)
         last_accept = None
+        last_accept_rt = None
+        last_accept_via = None
+        last_sa_reject_rt = None
+        across_seen = False  # a state_hold period of this function contained the change of the wall clock
         prev_now = None
+        prev_exact_rt = info["def_vt"]
         known_keys = set()
         for occ in occs:
             known_keys.add(occ["key"])
@@ -515,9 +873,12 @@ def oracle(w: World, scn: dict, info: dict, base: dt.datetime):
             runs = got.get(occ["key"], [])
             dontcare = bool(occ.get("dc"))
             reason = None
+            if occ.get("held_across"):
+                w.probe("state_hold_across_clock_change")
+                across_seen = True
             if occ.get("held"):
                 w.probe("state_hold_occurrence")
-                if func["active"] is not None and any(r[1] == f"pyscript.t{fi}" for r in X.refs(func["active"])):
+                if func["active"] is not None and any(r[1] == f"pyscript.t{fi}" for r in a_refs(func["active"])):
                     w.probe("state_hold_guard_on_trigger_values")
             if has_time and func["trig"] != "time":
                 w.probe("combined_trigger")
@@ -528,6 +889,14 @@ def oracle(w: World, scn: dict, info: dict, base: dt.datetime):
                     if not dc_a and not dc_b and here != before:
                         w.probe("combined_first_after_window_edge")
             prev_now = now
+            if dst:
+                if occ["rt"] > vt_change:
+                    w.probe("occurrence_after_clock_" + dst["dir"])
+                if occ["exact"]:
+                    if prev_exact_rt < vt_change <= occ["rt"]:
+                        # the waiting period of the time trigger contained the change of the wall clock
+                        w.probe("time_trigger_first_after_clock_change")
+                    prev_exact_rt = occ["rt"]
             # 1. state_active
             ok = True
             if func["active"] is not None:
@@ -542,13 +911,21 @@ def oracle(w: World, scn: dict, info: dict, base: dt.datetime):
                             return None
                         val = occ["g"].get(ent)
                         return None if val is None else (val, {})
-                    if any(r[0] == "old" for r in X.refs(func["active"])):
+                    if any(r[0] == "old" for r in a_refs(func["active"])):
                         w.probe("state_active_old_used")
-                    truth, _raised = X.truthy(func["active"], env)
-                    if not truth:
+                    try:
+                        value = a_eval(func["active"], env)
+                    except X.EvalError:
+                        value = False  # logged, treated as false
+                    if not value:
                         ok = False
                         reason = "state_active"
                         w.probe("state_active_rejected")
+                        if value is not False:
+                            # "If it evaluates to False (or zero), the trigger is ignored": a falsy value that is
+                            # not the constant False
+                            reason = "state_active_falsy_value"
+                            w.probe("state_active_falsy_non_bool")
             # 2. time windows
             if ok and func["time_active"] and func["windows"]:
                 active, dc = window_verdict(func["windows"], now, startup)
@@ -580,13 +957,23 @@ def oracle(w: World, scn: dict, info: dict, base: dt.datetime):
                                     w.probe("occurrence_on_window_end")
             # 3. hold_off
             if ok and func["hold_off"] and last_accept is not None and not dontcare:
-                gap = (now - last_accept).total_seconds()
+                # "less than N seconds after": elapsed seconds, whatever the wall clock was set to in between
+                gap = occ["rt"] - last_accept_rt
+                across = dst is not None and last_accept_rt < vt_change < occ["rt"]
                 if abs(gap - func["hold_off"]) < 0.3:
                     dontcare = True
                 elif gap < func["hold_off"]:
                     ok = False
                     reason = "hold_off"
                     w.probe("hold_off_rejected")
+                    if func.get("event_types", 1) > 1 and occ.get("via") != last_accept_via:
+                        # the last accepted occurrence came through the function's other trigger of the same type
+                        reason = "hold_off_not_shared_between_triggers"
+                        w.probe("hold_off_other_trigger_of_same_type")
+                    if across:
+                        w.probe("hold_off_rejected_across_clock_change")
+                elif across and gap < 3600.0:
+                    w.probe("hold_off_over_across_clock_change")
             if any(x.get("neg") for x in func["windows"]) and any(not x.get("neg") for x in func["windows"]):
                 w.probe("positive_and_negative_mixed")
             if sum(1 for x in func["windows"] if x.get("neg")) >= 2:
@@ -596,28 +983,55 @@ def oracle(w: World, scn: dict, info: dict, base: dt.datetime):
             if any(x["type"] == "range" and x["start"]["date"]["k"] == "none" and C._time_on_day(x["start"]["time"], now.date(), None)  # pylint: disable=protected-access
                    > C._time_on_day(x["end"]["time"], now.date(), None) for x in func["windows"]):  # pylint: disable=protected-access
                 w.probe("wrapping_window")
+            if dst and dst["dir"] == "forward":
+                skipped0 = zone.to_local(_change_utc(dst)) - dt.timedelta(hours=1)
+                if any(x["type"] == "range" and any(skipped0 <= C._time_on_day(x[key]["time"], now.date(), None)  # pylint: disable=protected-access
+                                                    < skipped0 + dt.timedelta(hours=1) for key in ("start", "end"))
+                       for x in func["windows"]):
+                    w.probe("window_edge_in_skipped_hour")
             if dontcare:
                 if runs:
-                    last_accept = now
+                    last_accept, last_accept_rt, last_accept_via = now, occ["rt"], occ.get("via")
                 continue
             if ok:
                 n_acc += 1
                 if len(runs) != 1:
                     pattern = _pattern(func)
-                    viol("C07.accepted_occurrence_did_not_run" if not runs else "C07.ran_twice", {"pattern": pattern},
-                         f"{desc}: {occ['label']} passes every guard but ran {len(runs)} times (guards g={occ['g']})",
+                    cls = "C07.accepted_occurrence_did_not_run" if not runs else "C07.ran_twice"
+                    why = ""
+                    if (not runs and func.get("time_active_first") and func["hold_off"] and last_sa_reject_rt is not None
+                            and occ["rt"] - last_sa_reject_rt < func["hold_off"] + 0.3):
+                        # @time_active above @state_active: an occurrence that @state_active rejected was no
+                        # accepted occurrence, so no hold-off period follows it
+                        cls = "C07.hold_off_started_by_rejected_occurrence"
+                        why = (f"; {occ['rt'] - last_sa_reject_rt:.1f} s earlier an occurrence was rejected by "
+                               f"@state_active, the last accepted one was at {last_accept}")
+                    if across_seen and cls == "C07.accepted_occurrence_did_not_run":
+                        # this occurrence, or an earlier one whose delivery the implementation may still be waiting for
+                        cls = "C07.state_hold_across_clock_change"
+                    viol(cls, {"pattern": pattern},
+                         f"{desc}: {occ['label']} passes every guard but ran {len(runs)} times (guards g={occ['g']}){why}",
                          occ["vt"] or 0.0)
-                last_accept = now
+                if runs:  # (reported above if it did not run; later hold_off decisions follow the implementation)
+                    last_accept, last_accept_rt, last_accept_via = now, occ["rt"], occ.get("via")
             else:
                 n_rej += 1
+                if reason.startswith("state_active"):
+                    last_sa_reject_rt = occ["rt"]
+                    if func.get("time_active_first") and func["hold_off"]:
+                        w.probe("state_active_rejected_below_hold_off")
                 if runs:
-                    viol("C07." + reason, {"pattern": _pattern(func)},
+                    if occ.get("shutdown"):
+                        w.probe("shutdown_occurrence_rejected")
+                        reason = "shutdown_ran_unguarded"
+                    viol("C07.state_hold_across_clock_change" if across_seen and reason in ("window", "state_active", "hold_off")
+                         else "C07." + reason, {"pattern": _pattern(func)},
                          f"{desc}: {occ['label']} must be rejected by {reason} (guards g={occ['g']}, last accepted "
                          f"{last_accept}) but the function ran", runs[0]["vt"])
-                    last_accept = now  # the implementation accepted it: follow it for later hold_off decisions
+                    last_accept, last_accept_rt, last_accept_via = now, occ["rt"], occ.get("via")  # the implementation accepted it: follow it for later hold_off decisions
         for key, ms in got.items():
             if key in absorbed:
-                viol("C07.state_hold_delivered_other_change", {},
+                viol("C07.state_hold_across_clock_change" if across_seen else "C07.state_hold_delivered_other_change", {},
                      f"{desc}: ran with the values of {key}, a change during the state_hold period started by "
                      f"{absorbed[key]} (the arguments and guard values are those of the change that started it): "
                      f"{ms[0]['kw']}", ms[0]["vt"])
